@@ -82,13 +82,35 @@ def pred_conds(p, i, b):
     return out
 
 
+def _buf_object(e, k):
+    """The buffer object the k-th argument of a call designates: the value the borrowed variable held before any call
+    mutated it (for the datagram: the result of `limit(..)`, whichever local it has been moved to since)."""
+    d = (e.get('derefs') or [None] * (k + 1))[k]
+    return q.pre_havoc(d) if d is not None else None
+
+
 def packet_buf(p):
-    """Identity of the datagram under construction on this path: the buffer the header is encoded into."""
+    """Identity of the datagram under construction on this path: the buffer the header is encoded into, as
+    (place, object)."""
     pb = getattr(p, '_packet_buf', 0)
     if pb == 0:
         enc = [c for c in p.calls() if c['decl'] == 'codec::Codec::encode_header']
-        pb = p._packet_buf = buffer_id(enc[0]['args'][2]) if enc else None
+        pb = p._packet_buf = (buffer_id(enc[0]['args'][2]), _buf_object(enc[0], 2)) if enc else (None, None)
     return pb
+
+
+def touches_packet(p, e, mutably=True):
+    """Does the call receive (a mutable reference to) the datagram buffer?"""
+    place, obj = packet_buf(p)
+    for k, a in enumerate(e['args']):
+        if a[0] != 'ref' or (mutably and not a[2]):
+            continue
+        if place is not None and buffer_id(a) == place:
+            return True
+        o = _buf_object(e, k)
+        if obj is not None and o == obj and obj[0] == 'call':
+            return True
+    return False
 
 
 def r1_r2_sender(ctx, f, rep):
@@ -187,7 +209,7 @@ def r3_sections(ctx, f, rep, tabs):
             if e['kind'] != 'call':
                 continue
             nm = e['res'] or e['decl']
-            touches_buf = any(a[0] == 'ref' and a[2] and buffer_id(a) == packet_buf(p) for a in e['args'])
+            touches_buf = touches_packet(p, e)
             if touches_buf and nm not in ('bytes::buf::Limit::get_mut',):
                 writers.add(nm)
             g = pred_conds(p, i, b)
@@ -278,7 +300,7 @@ def r4_count(ctx, f, rep):
                           'saved before that call and no further member is encoded or counted', site=e['span'],
                           construct='truncate-on-error')
             if e['kind'] == 'call' and e['decl'] == 'bytes::BufMut::put_u16' and \
-                    not any(a[0] == 'ref' and buffer_id(a) == packet_buf(p) for a in e['args'][:1]):
+                    not touches_packet(p, dict(e, args=e['args'][:1]), mutably=False):
                 n_patch += 1
                 v = e['args'][1]
                 g = pred_conds(p, i, b)
